@@ -18,15 +18,19 @@ import (
 	"sort"
 	"strings"
 	"sync"
+	"time"
 
 	"github.com/sirupsen/logrus"
 
 	"github.com/arr-ai/arrai/pkg/arraictx"
+	"github.com/arr-ai/arrai/pkg/ctxfs"
 	"github.com/arr-ai/arrai/pkg/importcache"
 	"github.com/arr-ai/arrai/rel"
 	"github.com/arr-ai/arrai/syntax"
 
+	"aaverif/aaseed"
 	"aaverif/run"
+	"aaverif/simfs"
 	"aaverif/tape"
 )
 
@@ -82,6 +86,12 @@ func sharedValues(t *tape.Tape) (rel.Scope, []string) {
 		items = append(items, str(fmt.Sprintf("s%d", i)))
 	}
 	sc = sc.With("arr", rel.NewArray(items...))
+	// a relation whose attributes are a subset of r's: r <&> ysub takes the semi-join path
+	var ys []rel.Value
+	for i := 0; i < 5; i++ {
+		ys = append(ys, rel.NewTuple(rel.NewAttr("y", num(i))))
+	}
+	sc = sc.With("ysub", rel.MustNewSet(ys...))
 	return sc, desc
 }
 
@@ -118,6 +128,11 @@ var programs = []string{
 	"//rel.union({nums, {1000}})",
 	"//eval.value('1 + 1')",
 	"r rank (k: .x)",
+	"r <&> ysub",
+	"(r <&> ysub) count",
+	"r -&- ysub",
+	"//{./d.json}",
+	"//{./d.yaml}.tag",
 	// deprecated forms: each distinct source text is recorded once in a process-wide cache
 	"(a: 1) + (b: 2)",
 	"(a: 1, c: 3) + (b: t.a1)",
@@ -185,6 +200,8 @@ func parseReports(text string) []report {
 func owned(fn string) bool { return strings.HasPrefix(fn, "github.com/arr-ai/arrai/") }
 
 var raceLogOffset int
+var stdinFed, lazyPhaseDone bool
+var stdinProblem string
 
 func raceLogPath() string {
 	for _, kv := range strings.Fields(os.Getenv("GORACE")) {
@@ -216,7 +233,12 @@ func Run(c *run.Ctx) {
 	c.Logf("values %v; goroutines=%d first-use=%v FROZEN_CONCURRENCY=%q programs=%v", desc, g, firstUse, fc, progs)
 	ctx := arraictx.InitRunCtx(context.Background())
 	ctx = importcache.WithNewImportCache(ctx)
-
+	disk := simfs.New("disk", "/w")
+	disk.Put("/w/d.json", `{"tag": "json", "n": [1, 2]}`)
+	disk.Put("/w/d.yaml", "tag: yaml\n")
+	ctx = ctxfs.SourceFsOnto(ctx, disk)
+	ctx = ctxfs.RuntimeFsOnto(ctx, disk)
+	const progPath = "/w/prog.arrai"
 	type res struct {
 		out []string
 	}
@@ -224,7 +246,7 @@ func Run(c *run.Ctx) {
 	var compiled []rel.Expr
 	if !firstUse {
 		for _, p := range progs {
-			e, err := syntax.Compile(ctx, syntax.NoPath, p)
+			e, err := syntax.Compile(ctx, progPath, p)
 			if err != nil {
 				c.Logf("program %q does not compile", p) // the error is never formatted: wbnf renders some parse errors in exponential time
 				compiled = append(compiled, nil)
@@ -239,7 +261,7 @@ func Run(c *run.Ctx) {
 			var e rel.Expr
 			var err error
 			if firstUse {
-				e, err = syntax.Compile(ctx, syntax.NoPath, p)
+				e, err = syntax.Compile(ctx, progPath, p)
 			} else {
 				e = compiled[i]
 				if e == nil {
@@ -262,21 +284,84 @@ func Run(c *run.Ctx) {
 		}
 		return out
 	}
-	var start, done sync.WaitGroup
-	start.Add(1)
-	for k := 0; k < g; k++ {
-		done.Add(1)
-		go func(k int) {
-			defer done.Done()
-			start.Wait()
-			for i := range progs {
-				j := (i + k) % len(progs)
-				results[k].out = append(results[k].out, fmt.Sprintf("%d=%s", j, evalOne(j, progs[j])))
+	evalSrc := func(src string) string {
+		var out string
+		msg, frame, panicked := run.Guard(func() {
+			e, err := syntax.Compile(ctx, progPath, src)
+			if err != nil {
+				out = "compile-error"
+				return
 			}
-		}(k)
+			v, err := e.Eval(ctx, scope)
+			if err != nil {
+				out = "error"
+				return
+			}
+			out = v.String()
+		})
+		if panicked {
+			return "panic: " + msg + " at " + frame
+		}
+		return out
 	}
-	start.Done()
-	done.Wait()
+	together := func(n int, f func(k int)) {
+		var start, done sync.WaitGroup
+		start.Add(1)
+		for k := 0; k < n; k++ {
+			done.Add(1)
+			go func(k int) {
+				defer done.Done()
+				start.Wait()
+				f(k)
+			}(k)
+		}
+		start.Done()
+		done.Wait()
+	}
+	// phase A (fresh process only): the three process-wide lazies of package syntax -- standard scope, safe
+	// standard scope, implicit decoder -- are used for the very first time at the same moment
+	if firstUse && !lazyPhaseDone {
+		lazyPhaseDone = true
+		// through the public entry points an embedding host has (pkg/shell calls StdScope directly) and
+		// through evaluation
+		lazies := []func(){
+			func() { syntax.StdScope() },
+			func() { syntax.SafeStdScope() },
+			func() { evalSrc("//{./d.json}") },
+			func() { evalSrc("//eval.value('1 + 1')") },
+			func() { evalSrc("//{./d.yaml}.tag") },
+			func() { evalSrc("//math.pi") },
+		}
+		together(len(lazies), func(k int) { lazies[k]() })
+		c.Probe("lazies-first-used-together")
+	}
+	// phase B: the drawn programs, every goroutine starting at a different one
+	together(g, func(k int) {
+		for i := range progs {
+			j := (i + k) % len(progs)
+			results[k].out = append(results[k].out, fmt.Sprintf("%d=%s", j, evalOne(j, progs[j])))
+		}
+	})
+	// phase C (fresh process only): //os.stdin read by all goroutines at once while the simulator delivers the
+	// stream in two pieces; everybody must see all of it
+	if aaseed.FakeStdinW != nil && !stdinFed {
+		stdinFed = true
+		go func() {
+			aaseed.FakeStdinW.Write([]byte("abc"))
+			time.Sleep(40 * time.Millisecond)
+			aaseed.FakeStdinW.Write([]byte("def"))
+			aaseed.FakeStdinW.Close()
+		}()
+		seen := make([]string, g)
+		evalSrc("1") // the compiler itself is warm by now; only the stream is first-used
+		together(g, func(k int) { seen[k] = evalSrc("//os.stdin") })
+		c.Probe("stdin-read-under-contention")
+		for k, sv := range seen {
+			if sv != seen[0] || !strings.Contains(sv, "abcdef") && !strings.Contains(sv, "97, 98, 99, 100, 101, 102") {
+				stdinProblem = fmt.Sprintf("goroutine %d read %q, goroutine 0 read %q; the stream was \"abc\" then \"def\"", k, sv, seen[0])
+			}
+		}
+	}
 	c.Res.Steps = g * len(progs)
 
 	// serial reference: the same programs afterwards on one goroutine
@@ -324,6 +409,12 @@ func Run(c *run.Ctx) {
 		c.Probe("race-detector-off")
 	}
 	if c.Failed() {
+		return
+	}
+	if stdinProblem != "" {
+		msg := stdinProblem
+		stdinProblem = ""
+		c.Violate("serial-equivalent", "C11/stdin-split-between-readers", "concurrent evaluations of //os.stdin did not all see the whole stream: %s", msg)
 		return
 	}
 	// results equal the serial ones -- only judged with the trie library at production settings
